@@ -319,3 +319,53 @@ def call_guarded_by_min_reach(qualname, method, attr):
             return rec
     rec["status"] = "proved"
     return rec
+
+
+def writes_only_through(file, attr, adder, allowed_adder_callers, allowed_ops=("clear",)):
+    """Frame obligation for a list-valued plan attribute: in `file`, the list `<obj>.<attr>` is never assigned, extended,
+    appended to or concatenated directly (only the operations in `allowed_ops` are applied to it), and the adder method
+    `<obj>.<adder>(...)` is called only inside the functions named in `allowed_adder_callers` — so every element that
+    enters the list passed through one of those functions (whose contracts say what they let in)."""
+    rec = {"name": f"{file}: .{attr} is written only through .{adder}() called from {sorted(allowed_adder_callers)}", "status": "undecided",
+           "backend": "ast-frame", "ms": 0.0}
+    try:
+        m = source.load_module(file)
+    except Exception as e:
+        rec["detail"] = f"contract drift: {e}"
+        return rec
+    parents = _parents(m.tree)
+
+    def enclosing(n):
+        while n is not None:
+            n = parents.get(n)
+            if isinstance(n, (ast.FunctionDef, ast.AsyncFunctionDef)):
+                return n.name
+        return "<module>"
+
+    def is_attr(n):
+        return isinstance(n, ast.Attribute) and n.attr == attr
+
+    n_adders = 0
+    for n in ast.walk(m.tree):
+        bad = None
+        if isinstance(n, ast.Call) and isinstance(n.func, ast.Attribute):
+            if is_attr(n.func.value) and n.func.attr not in allowed_ops:
+                bad = f".{attr}.{n.func.attr}(...)"
+            elif n.func.attr == adder:
+                n_adders += 1
+                if enclosing(n) not in allowed_adder_callers:
+                    bad = f".{adder}(...) called from {enclosing(n)}"
+        elif isinstance(n, ast.Assign) and any(is_attr(t) for t in n.targets):
+            bad = f".{attr} = ..."
+        elif isinstance(n, ast.AugAssign) and is_attr(n.target):
+            bad = f".{attr} {type(n.op).__name__}= ..."
+        if bad:
+            rec["status"] = "violated"
+            rec["detail"] = f"line {n.lineno} ({enclosing(n)}): {bad}"
+            return rec
+    rec["vc"] = f"{n_adders} call site(s) of .{adder}() in {file}"
+    if n_adders == 0:
+        rec["detail"] = "no adder call found (contract drift)"
+        return rec
+    rec["status"] = "proved"
+    return rec
